@@ -739,12 +739,63 @@ func (fr *Frame) quantifier(forall bool, c *ssa.CallCommon, args []Val, st *Stat
 	vc.quant++
 	res, _, _ := vc.execClosure(ci, []Val{{T: types.Typ[types.Int], S: q}}, st.clone(), "true", fr)
 	vc.quant--
-	rng := fmt.Sprintf("(and (bvsle %s %s) (bvslt %s %s))", args[0].S, q, q, args[1].S)
+	body := res[0].S
+	idx := q // the term the range speaks about
+	// Re-base the bound variable on the absolute position in the first slice the
+	// body indexes with it: elements are then read as (select arr J), the shape the
+	// facts about copy/append are stated in, so that instantiation by matching
+	// works across shifted copies.
+	if off := sliceOffsetOf(body, q); off != "" {
+		j := q + "a"
+		rel := fmt.Sprintf("(bvsub %s %s)", j, off)
+		vc.quant++
+		res2, _, _ := vc.execClosure(ci, []Val{{T: types.Typ[types.Int], S: rel}}, st.clone(), "true", fr)
+		vc.quant--
+		body = strings.ReplaceAll(res2[0].S, fmt.Sprintf("(bvadd %s %s)", off, rel), j)
+		idx = rel
+		q = j
+	}
+	rng := fmt.Sprintf("(and (bvsle %s %s) (bvslt %s %s))", args[0].S, idx, idx, args[1].S)
 	var t string
 	if forall {
-		t = fmt.Sprintf("(forall ((%s (_ BitVec 64))) (=> %s %s))", q, rng, res[0].S)
+		t = fmt.Sprintf("(forall ((%s (_ BitVec 64))) (=> %s %s))", q, rng, body)
 	} else {
-		t = fmt.Sprintf("(exists ((%s (_ BitVec 64))) (and %s %s))", q, rng, res[0].S)
+		t = fmt.Sprintf("(exists ((%s (_ BitVec 64))) (and %s %s))", q, rng, body)
 	}
 	return &Val{T: types.Typ[types.Bool], S: vc.def("Bool", "quant", t)}
+}
+
+// sliceOffsetOf finds the first term (bvadd (g_soff X) q) in body and returns
+// (g_soff X), provided it does not itself mention q.
+func sliceOffsetOf(body, q string) string {
+	const pre = "(bvadd (g_soff "
+	for from := 0; ; {
+		i := strings.Index(body[from:], pre)
+		if i < 0 {
+			return ""
+		}
+		i += from
+		start := i + len("(bvadd ")
+		depth := 0
+		end := -1
+		for k := start; k < len(body); k++ {
+			if body[k] == '(' {
+				depth++
+			} else if body[k] == ')' {
+				depth--
+				if depth == 0 {
+					end = k + 1
+					break
+				}
+			}
+		}
+		if end < 0 {
+			return ""
+		}
+		off := body[start:end]
+		if strings.HasPrefix(body[end:], " "+q+")") && !strings.Contains(off, q) {
+			return off
+		}
+		from = i + 1
+	}
 }
